@@ -35,7 +35,8 @@ def plan(tier, seed):
     lins = sum(1 for _ in lcfrs.canonical_lins(R, V))
     nchunks = 64 if tier == 'quick' else 256
     chunks = [{'kind': 'rules', 'R': R, 'V': V, 'mod': nchunks, 'rem': i, 'tier': tier} for i in range(nchunks)]
-    chunks.append({'kind': 'extracted', 'n': 4 if tier == 'quick' else 5})
+    nx = 5 if tier == 'quick' else 6
+    chunks += [{'kind': 'extracted', 'n': nx, 'mod': 16, 'rem': r} for r in range(16)]
     return {
         'chunks': chunks,
         'rule': 'every ordered, non-deleting, non-erasing rule in canonical form with rank <= %d and <= %d variables '
@@ -222,8 +223,12 @@ def run_chunk(chunk):
                     {'reordering': 'optimal', 'markov': {'v': 1, 'h': 2, 'nofanout': False}},
                     {'reordering': 'optimal', 'markov': {'v': 0, 'h': 1, 'nofanout': True}}]
             mt = None
+            idx = 0
             for n in range(1, chunk['n'] + 1):
                 for sh, _ in model.shapes_with_unary(n, 1):
+                  idx += 1
+                  if idx % chunk['mod'] != chunk['rem']:
+                      continue
                   for labels in ('path', 'A'):
                     mt = model.simple_mt(sh, labels=labels, pos=(['x'] * n if labels == 'A' else None))
                     for cfg in cfgs:
@@ -233,7 +238,8 @@ def run_chunk(chunk):
                         res.outcome((model.shape_str(sh), cfg['reordering'], len(vs)))
                         for v in vs:
                             res.violation(v['kind'], v['where'], v['case'], v['detail'], v['what'])
-            res.sample({'extracted_from': model.mt_str(mt.root), 'modes': cfgs})
+            if mt is not None:
+                res.sample({'extracted_from': model.mt_str(mt.root), 'modes': cfgs})
             return res
         cfgs = configs(chunk['tier'])
         last = None
